@@ -36,63 +36,118 @@ def _env(fn):
     return {p: Poly.atom(p, {p}, {p}) for p in param_names(fn)}
 
 
+def _decide(ck, rule, site, key, got: Poly, want: Poly, shown: str, why: str, where, extra=()):
+    """Equal -> holds.  Different -> a violation only when the value that was read is built from the documented ingredients (then the
+    two normal forms denote different functions); anything else is a form this rule does not read."""
+    from ..sem import same_ingredients
+    ok = got == want
+    if not ok and ("φ(" in got.canon() or "⟦" in got.canon() or not same_ingredients(got, want, extra)):
+        raise AnalysisError(f"{site}: {key} is `{got.canon()[:110]}` (unrecognised form)")
+    ck.ob(rule, site, key, ok, shown, "" if ok else why, where)
+    return ok
+
+
 def r1_gae(ck, repo, nf):
+    """The scan body is evaluated with its per-step input bound to what the scan call really passes: element t of every sequence of
+    the xs tuple (element-wise arithmetic on the sequences before the scan commutes with taking the element)."""
     q = "rl_blox.blox.gae.compute_gae"
     fn = repo.func(q)
     mi = fn._module
-    body = next((n for n in fn.body if isinstance(n, ast.FunctionDef)), None)
-    ck.need(body is not None, f"{q}: scan body not found (anchor vanished)")
+    ps = param_names(fn)
+    ck.need(len(ps) >= 6, f"{q}: signature changed (anchor vanished)")
+    PR, PV, PNV, PD, PG, PL = ps[:6]      # roles by position of the public signature
+    ocfg = nf.cfg_of(fn)
+    oenv = _env(fn)
+    osc = Scope(ocfg, mi, oenv, q)
+    calls = [(n, c) for n in ocfg.nodes if n.ast is not None and n.kind == "stmt" for c in ast.walk(n.ast) if isinstance(c, ast.Call) and (repo.resolve_expr(mi, c.func) if isinstance(c.func, (ast.Name, ast.Attribute)) else "") in ("jax.lax.scan", "flax.nnx.scan")]
+    if len(calls) != 1:
+        raise AnalysisError(f"{q}: expected one scan call, found {len(calls)} (unrecognised form)")
+    n, c = calls[0]
+    b = {"f": None, "init": None, "xs": None}
+    for i_, k_ in enumerate(("f", "init", "xs")):
+        if len(c.args) > i_:
+            b[k_] = c.args[i_]
+    for kw in c.keywords:
+        if kw.arg in b:
+            b[kw.arg] = kw.value
+    reverse_kw = next((kw.value for kw in c.keywords if kw.arg == "reverse"), None)
+    unknown_kw = [kw.arg for kw in c.keywords if kw.arg not in ("f", "init", "xs", "reverse", "unroll", "length")]
+    if unknown_kw or any(v is None for v in b.values()) or not isinstance(b["f"], ast.Name):
+        raise AnalysisError(f"{q}: scan call `{short(c, 100)}` (unrecognised form)")
+    body = next((x for x in ast.walk(fn) if isinstance(x, ast.FunctionDef) and x is not fn and x.name == b["f"].id), None)
+    if body is None:
+        raise AnalysisError(f"{q}: scan body `{b['f'].id}` not found (anchor vanished)")
     body._module = mi
     bp = positional_params(body)
     ck.need(len(bp) == 2, f"{q}: scan body must take (carry, inputs)")
     carry, inp = bp
-    env = {carry: Poly.atom(carry, {carry}, {carry}), inp: Poly.atom(inp, {inp}, {inp}), "gamma": Poly.atom("gamma"), "lmbda": Poly.atom("lmbda")}
+    rev_flag = isinstance(reverse_kw, ast.Constant) and reverse_kw.value is True
+    if reverse_kw is not None and not isinstance(reverse_kw, ast.Constant):
+        raise AnalysisError(f"{q}: scan(reverse={short(reverse_kw, 30)}) (unrecognised form)")
+    # the sequences: each xs element as a polynomial over the four role sequences; `s[::-1]` marks a reversed sequence
+    xs = nf.poly(b["xs"], osc, n.id)
+    if xs.elems is None:
+        raise AnalysisError(f"{q}: scan inputs `{xs.canon()[:80]}` are not a tuple of sequences (unrecognised form)")
+    roles = {PR: "R", PV: "V", PNV: "NV", PD: "D"}
+    elems, directions = [], set()
+    for e_ in xs.elems:
+        sub = {}
+        for a_ in e_.atoms():
+            base = a_[:-6] if a_.endswith("[::-1]") else a_
+            if base in roles:
+                sub[a_] = Poly.atom(roles[base])
+                directions.add("reversed" if a_.endswith("[::-1]") else "forward")
+            elif a_ in (PG, PL):
+                continue
+            else:
+                raise AnalysisError(f"{q}: scan input `{e_.canon()[:80]}` is not element-wise arithmetic on the four sequences (unrecognised form)")
+        elems.append(e_.subst(sub))
+    if len(directions) != 1:
+        # some sequences run forwards and some backwards through the same scan: step t of one meets step T-1-t of another
+        ck.ob("R1-gae", q, "reverse-scan-inputs", False, f"scan(..., {xs.canon()[:120]})", "the scanned sequences are only partly reversed: the body combines rewards, values and terminations of different time steps", loc(mi, c))
+        return
+    backwards = (directions == {"reversed"}) != rev_flag       # reversed inputs, or reverse=True on forward inputs - not both
+    inp_val = Poly.atom("(" + ", ".join(x.canon() for x in elems) + ")")
+    inp_val.elems = elems
+    env = {carry: Poly.atom("A_prev"), inp: inp_val, PG: Poly.atom(PG), PL: Poly.atom(PL)}
     for k_, v_ in closure_env(nf, fn, body, mi, {p_: Poly.atom(p_, {p_}, {p_}) for p_ in param_names(fn)}, q).items():
         env.setdefault(k_, v_)
     cfg = nf.cfg_of(body)
     sc = Scope(cfg, mi, env, q + ".<locals>." + body.name)
-    rets = [n for n in cfg.nodes if n.kind == "stmt" and isinstance(n.ast, ast.Return)]
+    rets = [m for m in cfg.nodes if m.kind == "stmt" and isinstance(m.ast, ast.Return)]
     ck.need(len(rets) == 1, f"{q}: scan body has {len(rets)} returns")
     rp = nf.poly(rets[0].ast.value, sc, rets[0].id)
-    ck.need(rp.elems is not None and len(rp.elems) == 2, f"{q}: scan body must return (carry, output)")
-    r, v, nv, d = (f"{inp}[{i}]" for i in range(4))
-    want = nf.poly(parse_expr(f"{r} + gamma * {nv} * (1 - {d}) - {v} + gamma * lmbda * (1 - {d}) * {carry}"), Scope(None, mi, env, q), None)
+    if rp.elems is None or len(rp.elems) != 2:
+        raise AnalysisError(f"{q}: scan body must return (carry, output)")
+    want = nf.poly(parse_expr(f"R + {PG} * NV * (1 - D) - V + {PG} * {PL} * (1 - D) * A_prev"), Scope(None, mi, {}, q), None)
     where = loc(mi, body)
     for k, nm in ((0, "carry"), (1, "output")):
-        ok = rp.elems[k] == want
-        diff = (rp.elems[k] - want).canon()[:150]
-        ck.ob("R1-gae", q, f"recurrence:{nm}", ok, f"{nm} = {rp.elems[k].canon()[:150]}", "" if ok else f"differs from delta + gamma*lambda*(1-d)*A_prev by `{diff}`", where)
-    # the scan call
-    ocfg = nf.cfg_of(fn)
-    oenv = _env(fn)
-    osc = Scope(ocfg, mi, oenv, q)
-    calls = [(n, c) for n in ocfg.nodes if n.ast is not None and n.kind == "stmt" for c in ast.walk(n.ast) if isinstance(c, ast.Call) and dotted(c.func).endswith("lax.scan")]
-    ck.need(len(calls) == 1, f"{q}: jax.lax.scan call not found")
-    n, c = calls[0]
-    a = [nf.poly(x, Scope(None, mi, oenv, q), None).canon() for x in c.args]
-    ok = len(a) == 3 and a[1] == "0" and a[2] == "(rewards[::-1], values[::-1], next_values[::-1], terminateds[::-1])" and a[0].endswith(body.name)
-    if not ok:
-        # evidence of a wrong scan: forward inputs, another order of the four sequences, a non-zero initial carry; anything else is a
-        # way of writing the call this rule does not read
-        a2 = nf.poly(c.args[2], osc, n.id).canon() if len(c.args) == 3 else ""
-        known_wrong = len(a) == 3 and a[0].endswith(body.name) and (a[1] not in ("0",) and a[1].replace(".", "").isdigit() or
-                                                                      set(a2.replace("[::-1]", "").strip("()").split(", ")) == {"rewards", "values", "next_values", "terminateds"} and a2 != "(rewards[::-1], values[::-1], next_values[::-1], terminateds[::-1])")
-        if a2 == "(rewards[::-1], values[::-1], next_values[::-1], terminateds[::-1])" and a[1] == "0" and a[0].endswith(body.name):
-            ok = True
-        elif not known_wrong:
-            raise AnalysisError(f"{q}: scan call `{short(c, 100)}` (unrecognised form)")
-    ck.ob("R1-gae", q, "reverse-scan-inputs", ok, f"scan({', '.join(a)[:150]})", "" if ok else "scan must run the body from carry 0 over (rewards, values, next_values, terminateds), all reversed along time", loc(mi, c))
-    rets = [m for m in ocfg.nodes if m.kind == "stmt" and isinstance(m.ast, ast.Return)]
-    rp = nf.poly(rets[0].ast.value.args[0] if isinstance(rets[0].ast.value, ast.Call) and rets[0].ast.value.args else rets[0].ast.value, osc, rets[0].id)
-    rv = rets[0].ast.value
-    adv = nf.poly(rv.args[0], osc, rets[0].id) if isinstance(rv, ast.Call) and len(rv.args) == 2 else None
-    ret = nf.poly(rv.args[1], osc, rets[0].id) if isinstance(rv, ast.Call) and len(rv.args) == 2 else None
-    ck.need(adv is not None, f"{q}: result is not namedtuple(advantages, returns)")
+        _decide(ck, "R1-gae", q, f"recurrence:{nm}", rp.elems[k], want, f"{nm} = {rp.elems[k].canon()[:150]}", f"differs from delta + gamma*lambda*(1-d)*A_prev by `{(rp.elems[k] - want).canon()[:150]}`", where)
+    init = nf.poly(b["init"], osc, n.id)
+    ok = backwards and init.is_const() and init.const_value() == 0
+    if not ok and not (init.is_const() or backwards is False):
+        raise AnalysisError(f"{q}: scan call `{short(c, 100)}` (unrecognised form)")
+    ck.ob("R1-gae", q, "reverse-scan-inputs", ok, f"scan({b['f'].id}, {init.canon()[:20]}, {xs.canon()[:100]}{', reverse=True' if rev_flag else ''})",
+          "" if ok else "scan must run the body from carry 0 backwards in time over (rewards, values, next_values, terminateds): all sequences reversed (or reverse=True)", loc(mi, c))
+    # the result: advantages = stacked outputs in time order, returns = advantages + values
+    orets = [m for m in ocfg.nodes if m.kind == "stmt" and isinstance(m.ast, ast.Return)]
+    ck.need(len(orets) == 1 and orets[0].ast.value is not None, f"{q}: expected one return")
+    rv = nf.poly(orets[0].ast.value, osc, orets[0].id)
+    parts = rv.elems
+    if parts is None:
+        m_ = nf.meta.get(rv.single_atom() or "", {})
+        parts = m_.get("args") if len(m_.get("args", [])) == 2 and not m_.get("kws") else ([m_["kws"][k_] for k_ in ("advantages", "returns")] if set(m_.get("kws", {})) == {"advantages", "returns"} else None)
+    if parts is None or len(parts) != 2:
+        raise AnalysisError(f"{q}: result `{rv.canon()[:80]}` is not a pair (advantages, returns) (unrecognised form)")
+    adv, ret = parts
     ac = adv.canon()
-    ok = ac.endswith("[1][::-1]") and "scan(" in ac
-    ck.ob("R1-gae", q, "output-reversed-back", ok, f"advantages = {ac[:120]}", "" if ok else "the stacked scan output must be reversed back along time", loc(mi, rets[0].ast))
-    ok = ret == adv + Poly.atom("values", {"values"}, {"values"})
-    ck.ob("R1-gae", q, "returns", ok, f"returns = {ret.canon()[:120]}", "" if ok else "returns must be advantages + values", loc(mi, rets[0].ast))
+    stacked = ac[:-6] if ac.endswith("[::-1]") else ac
+    flipped_back = ac.endswith("[::-1]")
+    if not ("scan(" in stacked and stacked.endswith("[1]")):
+        raise AnalysisError(f"{q}: advantages `{ac[:100]}` are not the stacked scan output (unrecognised form)")
+    ok = flipped_back != rev_flag        # reversed inputs need the flip back; reverse=True returns time order already
+    ck.ob("R1-gae", q, "output-reversed-back", ok, f"advantages = {ac[:120]}", "" if ok else "the stacked scan output must be in time order: reversed back when the inputs were reversed, as returned with reverse=True", loc(mi, orets[0].ast))
+    _decide(ck, "R1-gae", q, "returns", ret, adv + Poly.atom(PV, {PV}, {PV}), f"returns = {ret.canon()[:120]}", "returns must be advantages + values", loc(mi, orets[0].ast), extra=("scan", "jax", "lax"))
 
 
 def _loop_body_eval(nf, fn, mi, q, loop, env0):
@@ -130,22 +185,37 @@ def r2_nstep(ck, repo, nf):
     ssc = Scope(None, mi, {**env, "G": env0[G], "c": env0[C], t: pe.env[t]}, q)
     wantG = nf.poly(parse_expr(f"G + c * reward[:, {t}]"), ssc, None)
     wantC = nf.poly(parse_expr(f"c * gamma * (1 - terminated[:, {t}])"), ssc, None)
-    okG = pe.env[G] == wantG
-    ck.ob("R2-n-step", q, "return-update", okG, f"G' = {pe.env[G].canon()[:120]}", "" if okG else f"expected G + c*r_t (with the discount *before* this step), difference `{(pe.env[G] - wantG).canon()[:120]}`", where)
-    okC = pe.env[C] == wantC
-    ck.ob("R2-n-step", q, "discount-update", okC, f"c' = {pe.env[C].canon()[:120]}", "" if okC else f"expected c*gamma*(1 - d_t), difference `{(pe.env[C] - wantC).canon()[:120]}`", where)
+    _decide(ck, "R2-n-step", q, "return-update", pe.env[G], wantG, f"G' = {pe.env[G].canon()[:120]}", f"expected G + c*r_t (with the discount *before* this step), difference `{(pe.env[G] - wantG).canon()[:120]}`", where, extra=("gamma", "terminated"))
+    _decide(ck, "R2-n-step", q, "discount-update", pe.env[C], wantC, f"c' = {pe.env[C].canon()[:120]}", f"expected c*gamma*(1 - d_t), difference `{(pe.env[C] - wantC).canon()[:120]}`", where, extra=("reward",))
     it = ast.unparse(lp.iter)
-    ok = it == "range(reward.shape[1])"
-    ck.ob("R2-n-step", q, "horizon-range", ok, f"for {t} in {it}", "" if ok else "the loop must cover every step of the sub-trajectory exactly once, in order", where)
+    itp = nf.poly(lp.iter, Scope(nf.cfg_of(fn), mi, env, q), nf.cfg_of(fn).stmt_node[id(lp)])
+    _decide(ck, "R2-n-step", q, "horizon-range", itp, nf.poly(parse_expr("range(reward.shape[1])"), Scope(None, mi, env, q), None), f"for {t} in {it}", "the loop must cover every step of the sub-trajectory exactly once, in order", where, extra=("terminated",))
     cfg = nf.cfg_of(fn)
     hdr = cfg.stmt_node[id(lp)]
     sc = Scope(cfg, mi, env, q)
     inits = {}
     for nm in (G, C):
         ds = [d for d in cfg.defs_of(hdr, nm) if d.node != hdr and not (set(cfg.enclosing_loops(d.node)) & {hdr})]
-        inits[nm] = nf.poly(ds[0].value, sc, ds[0].node).canon() if len(ds) == 1 and ds[0].kind == "assign" else "?"
-    ok = inits[G].startswith("zeros(reward.shape[0]") and inits[C].startswith("ones(reward.shape[0]")
-    ck.ob("R2-n-step", q, "initial-values", ok, f"G0 = {inits[G][:50]}, c0 = {inits[C][:50]}", "" if ok else "G must start at 0 and the discount at 1, one entry per sub-trajectory", loc(mi, fn))
+        if len(ds) != 1 or ds[0].kind != "assign":
+            raise AnalysisError(f"{q}: initial value of `{nm}` is not a single assignment before the loop (unrecognised form)")
+        inits[nm] = nf.poly(ds[0].value, sc, ds[0].node)
+    sc_w = Scope(None, mi, env, q)
+    shown = f"G0 = {inits[G].canon()[:50]}, c0 = {inits[C].canon()[:50]}"
+
+    def _is(pv, fname):
+        m_ = nf.meta.get(pv.single_atom() or "", {})
+        a0 = m_.get("args", [None])[0] if m_.get("args") else m_.get("kws", {}).get("shape")
+        return m_.get("fn", "").split(".")[-1] == fname and a0 is not None and a0.canon() in ("reward.shape[0]", "(reward.shape[0])")
+    ok = _is(inits[G], "zeros") and _is(inits[C], "ones")
+    if not ok:
+        from ..sem import same_ingredients
+        ref = nf.poly(parse_expr("jnp.zeros(reward.shape[0], dtype=jnp.float32) + jnp.ones(reward.shape[0], dtype=jnp.float32)"), sc_w, None)
+        if not all(same_ingredients(inits[x_], ref, ("gamma", "terminated", "full", "zeros_like", "ones_like")) for x_ in (G, C)):
+            raise AnalysisError(f"{q}: initial values {shown} (unrecognised form)")
+        # zeros_like / full spellings of the right constants are not read as violations
+        if any(t_ in inits[x_].canon() for x_ in (G, C) for t_ in ("full(", "zeros_like(", "ones_like(")):
+            raise AnalysisError(f"{q}: initial values {shown} (unrecognised form)")
+    ck.ob("R2-n-step", q, "initial-values", ok, shown, "" if ok else "G must start at 0 and the discount at 1, one entry per sub-trajectory", loc(mi, fn))
 
 
 def r3_rtg(ck, repo, nf):
@@ -166,17 +236,30 @@ def r3_rtg(ck, repo, nf):
     pe = _loop_body_eval(nf, fn, mi, q, lp, env0)
     r = lp.target.id
     want = nf.poly(parse_expr(f"gamma * acc + {r}"), Scope(None, mi, {**env, "acc": env0[acc], r: pe.env[r]}, q), None)
-    ok = pe.env[acc] == want
-    ck.ob("R3-reward-to-go", q, "recurrence", ok, f"acc' = {pe.env[acc].canon()[:100]}", "" if ok else f"expected gamma*acc + r, difference `{(pe.env[acc] - want).canon()[:100]}`", where)
+    _decide(ck, "R3-reward-to-go", q, "recurrence", pe.env[acc], want, f"acc' = {pe.env[acc].canon()[:100]}", f"expected gamma*acc + r, difference `{(pe.env[acc] - want).canon()[:100]}`", where)
     appended = [v for (nid, tgt, v) in pe.log if tgt == "<expr>" and ".append(" in v.canon()]
     ok = len(appended) == 1 and appended[0].canon() == f"{lst}.append({want.canon()})"
     ck.ob("R3-reward-to-go", q, "records-updated-value", ok, f"{appended[0].canon()[:100] if appended else None}", "" if ok else "each step must record the accumulator after adding that step's reward", where)
-    ok = ast.unparse(lp.iter) == "reversed(rewards)"
-    ck.ob("R3-reward-to-go", q, "backward-iteration", ok, f"for {r} in {ast.unparse(lp.iter)}", "" if ok else "the accumulation must run backwards over the rewards", where)
+    RW = positional_params(fn)[0]
+    ittxt = ast.unparse(lp.iter)
+    ok = ittxt in (f"reversed({RW})", f"{RW}[::-1]", f"reversed(list({RW}))", f"list(reversed({RW}))")
+    if not ok and ittxt != RW:
+        raise AnalysisError(f"{q}: the loop iterates over `{ittxt[:50]}` (unrecognised form)")
+    ck.ob("R3-reward-to-go", q, "backward-iteration", ok, f"for {r} in {ittxt}", "" if ok else "the accumulation must run backwards over the rewards", where)
     rets = [n for n in ast.walk(fn) if isinstance(n, ast.Return)]
     txt = ast.unparse(rets[0].value)
-    ok = f"reversed({lst})" in txt
-    ck.ob("R3-reward-to-go", q, "result-reversed", ok, f"return {txt}", "" if ok else "the recorded values must be reversed back into time order", loc(mi, rets[0]))
+    # the recorded list is brought back into time order: reversed(lst) / lst[::-1] in the result, or lst.reverse() in place after the loop
+    inplace = [c for c in ast.walk(fn) if isinstance(c, ast.Call) and isinstance(c.func, ast.Attribute) and c.func.attr == "reverse" and dotted(c.func.value) == lst and not c.args
+               and getattr(c, "lineno", 0) > getattr(lp, "end_lineno", 0)]
+    n_rev = txt.count(f"reversed({lst})") + txt.count(f"{lst}[::-1]") + len(inplace)
+    mentions = [x for x in ast.walk(rets[0].value) if isinstance(x, ast.Name) and x.id == lst]
+    if not mentions:
+        raise AnalysisError(f"{q}: the result `{txt[:60]}` does not mention the recorded list `{lst}` (unrecognised form)")
+    other_calls = [dotted(c.func) for c in ast.walk(rets[0].value) if isinstance(c, ast.Call) and dotted(c.func) not in ("reversed", "list", "tuple", "np.array", "np.asarray", "jnp.array", "jnp.asarray", "np.hstack", "jnp.hstack", "np.stack", "jnp.stack")]
+    if other_calls or n_rev > 1:
+        raise AnalysisError(f"{q}: the result `{txt[:60]}` (unrecognised form)")
+    ok = n_rev == 1
+    ck.ob("R3-reward-to-go", q, "result-reversed", ok, f"return {txt}" + (f" after {lst}.reverse()" if inplace else ""), "" if ok else "the recorded values must be reversed back into time order", loc(mi, rets[0]))
     cfg = nf.cfg_of(fn)
     hdr = cfg.stmt_node[id(lp)]
     ds = [d for d in cfg.defs_of(hdr, acc) if hdr not in cfg.enclosing_loops(d.node)]
@@ -277,12 +360,26 @@ def r4_callsites(ck, repo, nf):
             ck.ob("R4-per-trajectory", outer_q, "vmap-axis", ok, f"in_axes={axes}", "" if ok else "all four arguments must be mapped over axis 1 (the environment axis of (T, N) arrays)", loc(mi, app))
             # inner call forwards its parameters in order
             ip = positional_params(fn)
-            fwd = [dotted(a) for a in c.args[:4]]
+            gfn = repo.func(gq)
+            gps = positional_params(gfn)
+            if any(isinstance(a_, ast.Starred) for a_ in c.args) or any(k_.arg is None for k_ in c.keywords) or len(gps) < 6 or len(ip) < 4:
+                raise AnalysisError(f"{outer_q}: `{short(c, 70)}` passes packed arguments (unrecognised form)")
+            bnd = bind_call(gfn, c)         # by the signature of compute_gae: positional or keyword
+            fwd = [dotted(bnd.get(p_)) if bnd.get(p_) is not None else None for p_ in gps[:4]]
+            if any(f_ is None for f_ in fwd):
+                raise AnalysisError(f"{outer_q}: `{short(c, 70)}` does not pass plain variables for the four sequences (unrecognised form)")
             ok = fwd == ip[:4]
-            ck.ob("R4-per-trajectory", outer_q, "forwarding", ok, f"compute_gae({', '.join(dotted(a) or '?' for a in c.args)})", "" if ok else "rewards, values, next values and terminations must be forwarded in that order", where)
-            g = [dotted(a) for a in c.args[4:]] + [f"{k.arg}={dotted(k.value)}" for k in c.keywords]
-            ok = g == ["gamma", "lmbda"]
-            ck.ob("R4-per-trajectory", outer_q, "gamma-lambda", ok, f"{g}", "" if ok else "gamma and lambda must be passed in that order", where)
+            if not ok and set(fwd) != set(ip[:4]):
+                raise AnalysisError(f"{outer_q}: `{short(c, 70)}` forwards {fwd}, which are not the wrapper's four parameters (unrecognised form)")
+            ck.ob("R4-per-trajectory", outer_q, "forwarding", ok, f"compute_gae({', '.join(f'{p_}={f_}' for p_, f_ in zip(gps[:4], fwd))})", "" if ok else "rewards, values, next values and terminations must be forwarded in that order", where)
+            g = [dotted(bnd.get(p_)) if bnd.get(p_) is not None else None for p_ in gps[4:6]]
+            outer_params = param_names(repo.func(outer_q))
+            if any(x_ is None for x_ in g):
+                raise AnalysisError(f"{outer_q}: `{short(c, 70)}` does not pass plain variables for gamma / lambda (unrecognised form)")
+            # the discount and lambda of the routine: parameters of the enclosing routine, in their roles
+            want_g = [x_ for x_ in outer_params if x_ in g]
+            ok = len(set(g)) == 2 and all(x_ in outer_params for x_ in g) and (g == want_g or [outer_params.index(x_) for x_ in g] == sorted(outer_params.index(x_) for x_ in g))
+            ck.ob("R4-per-trajectory", outer_q, "gamma-lambda", ok, f"gamma <- {g[0]}, lmbda <- {g[1]}", "" if ok else "gamma and lambda must be passed in their roles (not swapped, not the same value twice)", where)
             # arguments of the vmapped call
             names = ["rewards", "values", "next values", "terminations"]
             vals = [nf.poly(a, osc, n.id).canon() for a in app.args]
